@@ -243,6 +243,7 @@ type LexDriver struct {
 // BuildLexDriver generates and compiles the driver for the given grammar sub-directories.
 func (m *Module) BuildLexDriver(name string, subs []string) (*LexDriver, string) {
 	dir := filepath.Join(m.Dir, name)
+	os.RemoveAll(dir)
 	mustWrite(filepath.Join(dir, "main.go"), []byte(lexDrvMain))
 	for _, s := range subs {
 		mustWrite(filepath.Join(dir, "glue_"+s+".go"), []byte(fmt.Sprintf(lexDrvGlue, s)))
